@@ -83,7 +83,7 @@ impl Property for C09 {
     fn assumptions(&self) -> Vec<&'static str> {
         vec!["crash model of the property: bytes not covered by a successful fsync of their file are lost; file creation/deletion is durable at once", "a failed fsync makes nothing durable"]
     }
-    fn required_probes(&self) -> Vec<&'static str> { vec!["batch_straddled_rotation", "crash_image_with_unsynced_bytes", "glue_reply_after_durable_write"] }
+    fn required_probes(&self) -> Vec<&'static str> { vec!["batch_straddled_rotation", "crash_image_with_unsynced_bytes", "glue_reply_after_durable_write", "janitor_messages_between_writes"] }
     fn runs(&self, tier: Tier) -> u64 { match tier { Tier::Quick => 5000, Tier::Thorough => 100000 } }
 
     fn derive(&self, tape: &[u64], rep: &RunReport, tier: Tier) -> Vec<Vec<u64>> {
@@ -172,6 +172,13 @@ impl Property for C09 {
         // durable writes; a reply to the client stands for "write_durable returned". Fault-free only.
         let glue = src.below(5) == 0;
         if glue { plan.clear(); }
+        // a third of the other workloads has a janitor beside the writers: the actor's remaining messages
+        // (truncation up to a stamp, writes nobody waits for, sync ticks, and now and then an early shutdown)
+        // arrive between the durable writes. (kind, argument): 0 truncate(T) 1 fire-and-forget write 2 tick 3 shutdown
+        let janitor: Vec<(u64, u64)> = if !glue && src.chance(1, 3) { src.list(6, 3, 4, |s| (s.weighted(&[3, 3, 1, 1]) as u64, 1 + s.below(50))) } else { Vec::new() };
+        let max_trunc: u64 = janitor.iter().filter(|(k, _)| *k == 0).map(|(_, t)| *t).max().unwrap_or(0);
+        let janitor_shuts_down = janitor.iter().any(|(k, _)| *k == 3);
+        let ts_of: std::collections::BTreeMap<u64, u64> = plans.iter().flatten().map(|(id, ts)| (*id, *ts)).collect();
         let trace_on = ctx.trace;
         rep.log(trace_on, || format!("config: glue={} writers={} writes={} max_file_size={} entry_size={} group_commit_max_entries={} wait_us={} faults={:?}", glue, nwriters, total_writes, max_file_size, entry_size, gmax, gwait, plan));
 
@@ -239,6 +246,21 @@ impl Property for C09 {
                     }
                 });
             }
+            if !janitor.is_empty() {
+                let h = handle.clone();
+                let acts = janitor.clone();
+                sched.add("janitor".to_string(), async move {
+                    for (i, (kind, arg)) in acts.into_iter().enumerate() {
+                        match kind {
+                            0 => h.truncate(arg),
+                            1 => h.write_fire_and_forget(Arc::new(make_delta(100_000 + i as u64, arg, pad)), arg),
+                            2 => h.sync_tick(),
+                            _ => { h.shutdown().await; }
+                        }
+                        tokio::task::yield_now().await;
+                    }
+                });
+            }
             let fin = sched.run_all(src, yield_bias, 20_000).await;
             (fin, sched.steps, sched.order_fp)
         });
@@ -275,7 +297,8 @@ impl Property for C09 {
         if fired.iter().any(|(_, f)| matches!(f, WalFault::AppendError | WalFault::AppendPartial(_) | WalFault::AppendTornIo(_) | WalFault::DiskFull)) { rep.probe("append_failed"); }
 
         // ---- liveness (fault-free runs only): every call resolves Ok
-        if fired.is_empty() && plan.is_empty() {
+        if !janitor.is_empty() { rep.probe("janitor_messages_between_writes"); if max_trunc > 0 { rep.fault("wal_truncated_up_to_a_stamp"); } if janitor_shuts_down { rep.fault("wal_actor_shut_down_early"); } }
+        if fired.is_empty() && plan.is_empty() && !janitor_shuts_down {
             if !finished {
                 rep.violate("C09/liveness/writers-not-finished", format!("fault-free run: {} of {} writes resolved within the step budget", done.len(), total_writes));
             }
@@ -289,7 +312,7 @@ impl Property for C09 {
         let mut nontrivial = false;
         for (k, (s_k, img)) in images.iter().enumerate() {
             let s_next = images.get(k + 1).map(|x| x.0).unwrap_or(u64::MAX);
-            let acked: Vec<&Done> = done.iter().filter(|x| x.ok && x.seq < s_next).collect();
+            let acked: Vec<&Done> = done.iter().filter(|x| x.ok && x.seq < s_next && ts_of.get(&x.id).copied().unwrap_or(u64::MAX) > max_trunc).collect();
             if acked.is_empty() { continue; }
             evals += 1;
             rep.fault("crash_dropping_unsynced_bytes");
@@ -316,7 +339,7 @@ impl Property for C09 {
         // lenient images: synced prefix plus a tape-chosen prefix of the unsynced tail
         if rep.violations.is_empty() {
             for (s, v) in vol.iter() {
-                let acked: Vec<&Done> = done.iter().filter(|x| x.ok && x.seq <= *s).collect();
+                let acked: Vec<&Done> = done.iter().filter(|x| x.ok && x.seq <= *s && ts_of.get(&x.id).copied().unwrap_or(u64::MAX) > max_trunc).collect();
                 if acked.is_empty() { continue; }
                 if !v.values().any(|(d, sy)| d.len() > *sy) { continue; }
                 evals += 1;
@@ -340,7 +363,7 @@ impl Property for C09 {
         }
         rep.evals = evals.max(1);
         rep.nontrivial = nontrivial;
-        let mut fp = fnv(glue as u64, &[nwriters as u8, size_opt as u8, gmax as u8, (gwait % 251) as u8, pad as u8]);
+        let mut fp = fnv(fnv(glue as u64, format!("{:?}", janitor).as_bytes()), &[nwriters as u8, size_opt as u8, gmax as u8, (gwait % 251) as u8, pad as u8]);
         for p in &plans { for (id, ts) in p { fp = fnv(fp, &[*id as u8, *ts as u8]); } fp = fnv(fp, &[0xff]); }
         for (c, f) in &fired { fp = fnv(fp, &c.to_le_bytes()); fp = fnv(fp, f.name().as_bytes()); }
         fp = fnv(fp, &order_fp.to_le_bytes());
@@ -349,6 +372,7 @@ impl Property for C09 {
             "writers": plans.iter().map(|p| p.iter().map(|(id, ts)| format!("w{}@{}", id, ts)).collect::<Vec<_>>()).collect::<Vec<_>>(),
             "max_file_size": max_file_size, "group_commit_max_entries": gmax, "group_commit_max_wait_us": gwait,
             "glue": glue, "big_entries": pad > 1_000_000,
+            "janitor": janitor.iter().map(|(k, a)| match k { 0 => format!("truncate({})", a), 1 => format!("fire-and-forget@{}", a), 2 => "sync_tick".to_string(), _ => "shutdown".to_string() }).collect::<Vec<_>>(),
             "faults_planned": plan.iter().map(|(c, f)| format!("call{}:{}", c, f.name())).collect::<Vec<_>>(),
             "faults_fired": fired.iter().map(|(c, f)| format!("call{}:{}", c, f.name())).collect::<Vec<_>>(),
             "io_calls": io_calls,
